@@ -102,6 +102,16 @@ Proof.
   cbn [map fst snd]. rewrite !total_cons, flush_record_len, IH. reflexivity.
 Qed.
 
+(* an immediate flush un-accounts record by record: from an exact counter, to 0 *)
+Lemma fold_sub_total m : forall u,
+  total m <= u -> u < two64 ->
+  fold_left (fun u kr => sub64w u (rec_len (snd kr))) m u = u - total m.
+Proof.
+  induction m as [|[k r] m IH]; intros u Hle Hlt; cbn [fold_left snd].
+  - cbn. lia.
+  - rewrite total_cons in Hle. rewrite sub64w_exact by lia. rewrite IH by lia. rewrite total_cons. lia.
+Qed.
+
 Lemma flush_acct d s : acct s -> acct (flush d s).
 Proof.
   intros [ND EX SM]. unfold flush. destruct (0 <? d).
@@ -110,7 +120,8 @@ Proof.
     + intros L E. rewrite total_map_flush. now apply EX with L.
     + now rewrite total_map_flush.
   - destruct (s_limit s) as [L|] eqn:EL; split; ssimpl; try constructor; try reflexivity.
-    rewrite EL. discriminate.
+    + intros L' _. rewrite (EX L eq_refl). rewrite fold_sub_total by lia. cbn. lia.
+    + rewrite EL. discriminate.
 Qed.
 
 Lemma flush_total d s : total (s_mem (flush d s)) <= total (s_mem s).
